@@ -5,6 +5,9 @@ impl vstd::std_specs::cmp::PartialEqSpecImpl for CompressionMethod {
     open spec fn obeys_eq_spec() -> bool { true }
     open spec fn eq_spec(&self, other: &CompressionMethod) -> bool { *self == *other }
 }
+impl CompressionMethod {
+//@item src/compression.rs | impl CompressionMethod | const AES
+}
 //@item src/types.rs | enum System
 //@item src/types.rs | struct DateTime
 //@item src/types.rs | struct AtomicU64
